@@ -290,7 +290,7 @@ func (c *Counters) Add(o *Counters) {
 //	sparse        default operations, ~30% participation in every epoch (leak, ejections)
 //	under         participation just under 2/3 in every epoch (no justification)
 //	over          participation just over 2/3 in every epoch (justification at the threshold)
-//	leak-recover  full for 2 epochs, sparse for 5, then full again (leak starts and ends)
+//	leak-recover  full for 4 epochs (finality), sparse for 5 (leak), then full again (leak ends, finality resumes)
 //	nobody        blocks without any attestation
 func PolicyByName(name string) Policy {
 	p := DefaultPolicy()
@@ -321,7 +321,7 @@ func PolicyByName(name string) Policy {
 		p.Participation = fixed(Nobody)
 	case "leak-recover":
 		p.Participation = func(e common.Epoch) Pattern {
-			if e >= 2 && e < 7 {
+			if e >= 4 && e < 9 {
 				return Sparse
 			}
 			return Full
